@@ -387,8 +387,46 @@ func checkTypedValueCache(r *Reporter, p *Prog) {
 					if !ok || id.Name != "ErrKeyNotFound" {
 						return false
 					}
-					dc := f.ReachingCall(c, c.Args[0])
-					return dc != nil && matchCall(dc, "kv.Get")
+					if dc := f.ReachingCall(c, c.Args[0]); dc != nil && matchCall(dc, "kv.Get") {
+						return true
+					}
+					// ... or every error the tested variable can hold is the store's error, possibly wrapped
+					// (errors.Is looks through wrappers) - e.g. handed back by a load helper
+					cpt, found := f.PointOf(c)
+					if !found {
+						return false
+					}
+					os := f.Origins(c.Args[0], cpt)
+					nStore := 0
+					for _, o := range os {
+						e, at := o.E, o.At
+						for depth := 0; depth < 4; depth++ {
+							wc, isCall := ast.Unparen(e).(*ast.CallExpr)
+							if !isCall || !isErrorConstructor(calleeShort(info, wc)) || len(wc.Args) == 0 {
+								break
+							}
+							if t := info.TypeOf(wc.Args[0]); t == nil || !types.Identical(t, errorType) {
+								break
+							}
+							inner := f.Origins(wc.Args[0], at)
+							if len(inner) != 1 {
+								break
+							}
+							e, at = inner[0].E, inner[0].At
+						}
+						if gc, isCall := ast.Unparen(e).(*ast.CallExpr); isCall && matchCall(gc, "kv.Get") {
+							nStore++
+						} else if isNil(info, e) {
+							continue
+						} else if wc, isCall := ast.Unparen(e).(*ast.CallExpr); isCall && isErrorConstructor(calleeShort(info, wc)) {
+							continue // an error made here (a decode failure, say): it is not ErrKeyNotFound, Is() is false for it
+						} else if _, isCall := ast.Unparen(e).(*ast.CallExpr); isCall {
+							continue // the error of another call (the decoder): likewise not the store's not-found
+						} else {
+							return false
+						}
+					}
+					return nStore > 0
 				})
 				if wit, ok := f.OnlyThroughEdges(w, edges); ok {
 					r.Pass("cache/after-store-success", key+" (absence)", f.PosOf(w), "absence cached only when the store reported ErrKeyNotFound")
